@@ -46,4 +46,21 @@ impl<K: PartialEq, V> VMap<K, V> {
     {
         self.get(k).is_some()
     }
+    pub fn remove<Q: ?Sized + PartialEq>(&mut self, k: &Q) -> Option<V>
+    where
+        K: Borrow<Q>,
+    {
+        let mut i = 0;
+        while i < self.items.len() {
+            if self.items[i].0.borrow() == k {
+                return Some(self.items.remove(i).1);
+            }
+            i += 1;
+        }
+        None
+    }
+    pub fn keys(&self) -> impl Iterator<Item = &K> { self.items.iter().map(|e| &e.0) }
+    pub fn values(&self) -> impl Iterator<Item = &V> { self.items.iter().map(|e| &e.1) }
+    pub fn iter(&self) -> impl Iterator<Item = (&K, &V)> { self.items.iter().map(|e| (&e.0, &e.1)) }
+    pub fn clear(&mut self) { self.items.clear() }
 }
